@@ -151,6 +151,9 @@ def pow(a,b):
     deriv_b = gradient(b)
     def deriv(r):
       ar = a(r)
+      if ar == 0.0 and deriv_a(r) == 0.0 and b(r) > 0.0:
+        # A base that is identically zero here (switched off beyond a range, as.zero): 0**b is the constant 0
+        return 0.0
       if ar <= 0.0 and deriv_b(r) == 0.0:
         # Constant exponent: the power rule needs no log(a) and holds for negative and zero bases too
         br = b(r)
@@ -170,6 +173,10 @@ def pow(a,b):
         db = deriv_b(r)
         d2a = deriv2_a(r)
         d2b = deriv2_b(r)
+
+        if ar == 0.0 and da == 0.0 and d2a == 0.0 and br > 0.0:
+          # Base identically zero here (see deriv)
+          return 0.0
 
         if ar <= 0.0 and db == 0.0 and d2b == 0.0:
           # Constant exponent and a base that is negative or zero (see deriv): power rule applied twice
